@@ -889,6 +889,19 @@ func (a *lsAnalysis) recordForeign(f *lsFrame, st *lsState, c *ssa.Call, rec fun
 	if cc.IsInvoke() {
 		it := cc.Value.Type()
 		if safeIface(it) {
+			// the callee is outside this object's state, but what it is HANDED may not be: a pointer into the
+			// receiver's own state (e.g. an error object kept in a field and re-used) is read by the callee with
+			// whatever locks are held at this call
+			if n, ok := it.(*types.Named); !ok || n.Obj().Name() != "Logger" {
+				for _, arg := range cc.Args {
+					if !pointerLike(arg.Type()) {
+						continue
+					}
+					if pa := f.pathOf(arg); strings.HasPrefix(pa, "R.") {
+						rec(pa+".*", "R", "handed to "+cc.Method.Name()+" of a handler / extension interface")
+					}
+				}
+			}
 			return
 		}
 		if pr := f.pathOf(cc.Value); shared(pr) {
